@@ -49,7 +49,9 @@ fn gen_cli(r: &mut StdRng, sorted_only: bool) -> Value {
         3 => (true, nlines as i64 + 3),               // chunk larger than the file
         _ => (nd || r.gen_bool(0.15), r.gen_range(1..=4)),
     };
-    let has = if nd { has || r.gen_bool(0.9) } else { has };
+    // (newline format without a chunk size is one of the refused combinations: keep it when it was drawn on purpose)
+    let drawn_without = !has && n == 0;
+    let has = if nd && !drawn_without { has || r.gen_bool(0.9) } else { has };
     let n = if has { n } else { 0 };
     let shape = if nd {
         "lines"
